@@ -341,6 +341,35 @@ class Session:
         self.handles.append((len(self.cass) - 1, cas))
         return len(self.handles) - 1
 
+    def op_json_save(self, o):
+        from cassis.typesystem import TypeSystemMode
+        from harness import refio
+        ci, h = self.handles[o["h"]]
+        mode = {"full": TypeSystemMode.FULL, "minimal": TypeSystemMode.MINIMAL, "none": TypeSystemMode.NONE}[o.get("mode") or "full"]
+        kw = {}
+        if "pretty" in o:
+            kw["pretty_print"] = o["pretty"]
+        if "ascii" in o:
+            kw["ensure_ascii"] = o["ascii"]
+        text = h.to_json(type_system_mode=mode, **kw)
+        self.last_text = text
+        return refio.canon_jdoc(refio.read_json(text))
+
+    def op_json_load(self, o):
+        from cassis import load_cas_from_json
+        from harness import refio
+        text = refio.write_json(o["doc"], o.get("layout"))
+        kw = {}
+        if o.get("ts") is not None:
+            kw["typesystem"] = self.tss[o["ts"]]
+        cas = load_cas_from_json(text, lenient=o.get("lenient", False), merge_typesystem=o.get("merge", True), **kw)
+        # the loader builds (merges) its own type system: register it the way the driver does
+        self.tss.append(cas.typesystem)
+        self.cass.append(cas)
+        self.cas_ts.append(len(self.tss) - 1)
+        self.handles.append((len(self.cass) - 1, cas))
+        return len(self.handles) - 1
+
     def op_cas_dump(self, o):
         from harness import dump
         ci, h = self.handles[o["h"]]
